@@ -21,23 +21,34 @@ import c17_gen as G  # noqa: E402
 
 CLAIMED = True
 LEVEL = "proof"
-TECHNIQUE = ("Lean 4: invariant proof over countNode histories (any isNodeAfter oracle), round-trip proofs for the "
-             "formatters over tables regenerated from the source, refinement of the navigation code to the section 7.7 "
-             "specification; lock-step correspondence of stylesheets numbering every node in several histories")
-LEVEL_TEXT = ("Machine-checked: for every history of CountersTable::countNode calls and every isNodeAfter oracle the cached "
-              "answer equals the from-scratch getPreviousNode chain length; int2alphaCount/toRoman/decimal+grouping/"
-              "formatNumberList decode back (all n>=1, 1..3999, all n, all lists) over the tables translated from "
-              "ElemNumber.cpp (also with grouping, with the buffer accounting of applyGrouping); the navigation model yields the "
-              "section 7.7 list for level=any/single/multiple without `from`, multiple with `from` off the current node, any with "
-              "`from` when from-nodes have children, with proved counterexamples where the code deviates. "
-              "Tied to the working tree by the table translator and by running generated stylesheets (every node numbered "
-              "in document, reverse, shuffled, sorted and repeating orders, next to the defining count() expression) "
-              "through the real library and the compiled Lean model.")
-LEVEL_NOTE = ("Trusted: Lean kernel; axioms propext/Classical.choice/Quot.sound only; translate/c17_tables.py; the hand "
-              "transcription of ElemNumber.cpp/CountersTable.cpp/XalanNumberFormat.cpp (validated by the correspondence run, "
-              "bounded by generator coverage); pattern matching (getMatchScore) is an abstract predicate, evaluated by the "
-              "generator for a fixed family of patterns; isXMLLetterOrDigit is a parameter (ASCII instance in the driver); "
-              "Greek/traditional numbering, lang and letter-value are not modelled; attribute nodes are outside the navigation model.")
+TECHNIQUE = ("Lean 4: invariant proof over countNode histories (any isNodeAfter oracle), refinement of the transcribed navigation "
+             "to the XSLT 1.0 section 7.7 specification, round-trip proofs for the formatters over tables regenerated from the "
+             "source; two translators (tables, code-shape facts and flags); lock-step correspondence of generated stylesheets "
+             "numbering every node (attributes included) in several histories, next to the defining count() expression")
+LEVEL_TEXT = ("Machine-checked (18 theorems, axioms propext/Classical.choice/Quot.sound): (a) for every history of "
+              "CountersTable::countNode calls and every isNodeAfter oracle the cached answer equals the from-scratch "
+              "getPreviousNode chain length; (b) for every well-formed document, every instruction (level single/multiple/any, "
+              "explicit or default count, with or without from), every history, the transcribed navigation + cache prints the "
+              "section 7.7 list - proved for both forms of the `theNumber != 0` guard, i.e. up to the zero list of level=any "
+              "while that guard is in the source; (c) int2alphaCount (all n>=1 inside the 100-slot buffer), toRoman (1..3999 "
+              "complete), decimal with padding and with grouping (buffer accounting of applyGrouping), and formatNumberList for "
+              "every format string and every list whose numbers fit their token types, with and without grouping, decode back. "
+              "Tied to the working tree by translators (roman/alphabetic/Greek tables, limits, code-shape facts and four behaviour "
+              "flags the model is parametrised by) and by running generated stylesheets through the real library and the compiled "
+              "Lean model: every node of generated documents (elements in three namespace situations, text, comments, PIs, "
+              "attributes) numbered in document, reverse, shuffled, sorted and repeating orders, each result also compared with "
+              "the Lean specification, with the count() expression printed in the same run and with the section 7.7.1 layout; value= "
+              "integers, non-integral / negative / special / >64-bit values, grouping attribute edge cases, Greek alphabetic.")
+LEVEL_NOTE = ("Trusted: Lean kernel; the three standard axioms; translate/c17_tables.py and translate/c17_navshape.py; the hand "
+              "transcription of ElemNumber.cpp / CountersTable.cpp / XalanNumberFormat.cpp (validated by the correspondence runs, "
+              "bounded by generator coverage); Doc.WF is evaluated per generated document, not proved for Doc.ofParents in general. "
+              "Abstract: XPath pattern matching (a predicate, evaluated by the generator for a closed pattern family and independently "
+              "by the count() expression of the same run), isXMLLetterOrDigit (a predicate; ASCII + a few letters in the driver), "
+              "isNodeAfter (arbitrary). Modelled with correspondence but without theorems: attribute nodes as context/counted nodes, "
+              "value= rounding and range, Greek alphabetic numbering. Not modelled: letter-value=traditional (XalanNumberingResourceBundle), "
+              "NumberToDOMString(double) for values that bypass formatting, namespace nodes (two direct tests). Known findings: zero "
+              "count of level=any, single-punctuation format, value >= 2^64, attribute counted under level=any (patches proposed), "
+              "default count on a namespace node.")
 DESIGN_REF = "DESIGN.md section 5, C17; design/C17.md"
 
 THEOREMS = [
@@ -45,7 +56,9 @@ THEOREMS = [
     "XalanModel.Props.C17.counters_history_independent",
     "XalanModel.Props.C17.counters_history_answers",
     "XalanModel.Props.C17.getPreviousNode_decreases",
+    "XalanModel.Props.C17.number_spec_general",
     "XalanModel.Props.C17.number_spec_partial",
+    "XalanModel.Props.C17.number_spec_full",
     "XalanModel.Props.C17.number_spec_single_multiple",
     "XalanModel.Props.C17.number_spec_any_zero_counterexample",
     "XalanModel.Props.C17.alpha_roundtrip",
@@ -348,6 +361,10 @@ def evaluate(ctx, cases, harness, model, tag, record=True):
         dec = decode_req[dk]
         ilist = parse_list(dec) if dec != "none" else None
         unambiguous = decodable(ins)
+        # a zero (level="any" without the `theNumber != 0` guard) has no alphabetic / roman representation:
+        # the round trip is stated for numbers >= 1 (NumFits); such strings are only compared with the model
+        if slist and 0 in slist and ins.fmt and any(ch in "aAiI" for ch in ins.fmt):
+            unambiguous = False
         if istr == "":
             ilist = []
         if slist is None:
@@ -579,6 +596,263 @@ def expected_layout(fmt, printed):
     return out + trailer
 
 
+# ------------------------------------------------------------------------------------------------
+# attribute nodes as context nodes / counted nodes (document with its attributes: Doc.withAttrs, `numa`)
+
+def _is_attr(n, name=None):
+    return n.kind == "attr" and (name is None or n.name == name)
+
+
+ATTR_COUNTS = [
+    None,
+    ("@k", lambda n: _is_attr(n, "k")), ("@*", lambda n: _is_attr(n)), ("@k|x", lambda n: _is_attr(n, "k") or G.is_elem(n, "x")),
+    ("*|@*", lambda n: G.is_elem(n) or _is_attr(n)), ("x", lambda n: G.is_elem(n, "x")), ("*", lambda n: G.is_elem(n)),
+    ("@j|@k", lambda n: _is_attr(n, "j") or _is_attr(n, "k")), ("node()|@*", lambda n: n.kind not in ("root", "attr") or _is_attr(n)),
+]
+ATTR_FROMS = [None, None, ("s", lambda n: G.is_elem(n, "s")), ("h", lambda n: G.is_elem(n, "h")), ("x", lambda n: G.is_elem(n, "x")),
+              ("*[@k]", lambda n: G.is_elem(n) and "k" in n.attrs), ("@j", lambda n: _is_attr(n, "j"))]
+
+
+def attr_stream(ctx, r, harness, model, ndocs):
+    cases = []
+    for _ in range(ndocs):
+        root = G.gen_tree(r, r.range(4, 16))
+        nodes = G.preorder(root)
+        for n in nodes:
+            if n.kind == "elem" and r.chance(1, 3):
+                n.attrs["j"] = "2"
+            if n.kind == "elem" and r.chance(1, 4):
+                n.attrs["k"] = "1"
+        attrs = []
+        for n in nodes:
+            if n.kind == "elem":
+                for an in sorted(n.attrs):
+                    a = G.Node("attr", an)
+                    a.parent = n
+                    attrs.append(a)
+        if not attrs:
+            continue
+        N, A = len(nodes), len(attrs)
+        allnodes = nodes + attrs
+        io = []
+        for _ in range(5):
+            level = r.choice(["any", "any", "multiple", "single"])
+            cnt = r.choice(ATTR_COUNTS)
+            frm = r.choice(ATTR_FROMS)
+            hs = []
+            ids = list(range(N, N + A)) + [i for i in range(N) if r.chance(1, 2)]
+            hs.append(sorted(ids))
+            hs.append(r.shuffle(ids))
+            hs.append([r.choice(ids) for _ in range(r.range(1, len(ids) + 3))])
+            io.append((level, cnt, frm, hs))
+        cases.append((root, nodes, attrs, io))
+    # stylesheets and model requests
+    groups, lines, owner = [], [], []
+    for ci, (root, nodes, attrs, io) in enumerate(cases):
+        N = len(nodes)
+        out = ['<xsl:stylesheet version="1.0" xmlns:xsl="http://www.w3.org/1999/XSL/Transform" xmlns:p="urn:p"><xsl:output method="text" encoding="UTF-8"/>']
+        body = ['<xsl:template match="/"><xsl:variable name="all" select=".|//node()"/><xsl:variable name="att" select="//@*"/>']
+        ll = ["doc " + " ".join(str(n.parent.idx if n.parent is not None else -1) for n in nodes),
+              "cls " + " ".join([str(G.node_class(n)) for n in nodes] + [str(90 + ["j", "k"].index(a.name)) for a in attrs]),
+              "attrs " + " ".join(str(a.parent.idx) for a in attrs)]
+        for j, (level, cnt, frm, hs) in enumerate(io):
+            a = ' level="%s"' % level
+            if cnt:
+                a += ' count="%s"' % G.xml_attr(cnt[0])
+            if frm:
+                a += ' from="%s"' % G.xml_attr(frm[0])
+            cb = "".join("1" if cnt[1](n) else "0" for n in nodes + attrs) if cnt else "-"
+            fb = "".join("1" if frm[1](n) else "0" for n in nodes + attrs) if frm else "-"
+            for k, h in enumerate(hs):
+                name = "n%do%d" % (j, k)
+                out.append('<xsl:template name="%s"><xsl:param name="i"/><xsl:text>#%d.%d:</xsl:text><xsl:value-of select="$i"/>'
+                           '<xsl:text>=</xsl:text><xsl:number%s/><xsl:text>&#10;</xsl:text></xsl:template>' % (name, j, k, a))
+                for i in h:
+                    sel = "$all[%d]" % (i + 1) if i < N else "$att[%d]" % (i - N + 1)
+                    body.append('<xsl:for-each select="%s"><xsl:call-template name="%s"><xsl:with-param name="i" select="%d"/>'
+                                '</xsl:call-template></xsl:for-each>' % (sel, name, i))
+                ll.append("numa %s %s %s %s" % (level[0], cb, fb, " ".join(str(i) for i in h)))
+        body.append("</xsl:template>")
+        groups.append((G.to_xml(root), ["".join(out) + "".join(body) + "</xsl:stylesheet>"]))
+        lines += ll
+        owner += [ci] * len(ll)
+    impl = run_impl(harness, groups, nproc=min(8, common.NPROC))
+    mout, mrc, merr = run_model(model, lines, "attr")
+    agree = len(mout) == len(lines)
+    if not agree:
+        ctx.oblige("model driver answers the attribute stream", "machinery", False, merr)
+        return
+    per = {}
+    for ci, rep in zip(owner, mout):
+        per.setdefault(ci, []).append(rep)
+    bad = []
+    for ci, (root, nodes, attrs, io) in enumerate(cases):
+        N = len(nodes)
+        xml = G.to_xml(root)
+        kind, text = impl[ci][0]
+        if kind != "out":
+            ctx.fail("number.attr[%s]: doc=%s" % ("crash" if kind == "crash" else "error", xml), "transformation failed: " + text[:300],
+                     {"doc": xml, "stylesheet": groups[ci][1][0]})
+            continue
+        got = {}
+        for ln in text.split("\n"):
+            if ln.startswith("#"):
+                head, _, rest = ln[1:].partition(":")
+                i, _, v = rest.partition("=")
+                jj, kk = head.split(".")
+                got.setdefault((int(jj), int(kk)), []).append((int(i), v))
+        reps = per[ci][3:]
+        idx = 0
+        for j, (level, cnt, frm, hs) in enumerate(io):
+            seen = {}
+            for k, h in enumerate(hs):
+                ent = [e.split("|") for e in reps[idx].split(" ")] if reps[idx] else []
+                idx += 1
+                g = got.get((j, k), [])
+                if [x[0] for x in g] != list(h) or len(ent) != len(h):
+                    ctx.oblige("attribute stream: visiting order as generated", "machinery", False, "%s %s" % (h, g))
+                    continue
+                for (node, istr), e in zip(g, ent):
+                    ilist = parse_list(istr)
+                    mlist, slist = parse_list(e[0]), parse_list(e[1])
+                    isattr = node >= N
+                    cur = (nodes + attrs)[node]
+                    desc = "level=%s count=%s from=%s doc=%s node=%s" % (level, cnt[0] if cnt else None, frm[0] if frm else None, xml,
+                                                                        ("@%s of element %d" % (cur.name, cur.parent.idx)) if isattr else node)
+                    ctx.case(nontrivial_key=("attr", desc) if isattr else None, cls="attribute-context" if isattr else "attribute-document")
+                    prev = seen.setdefault(node, istr)
+                    if prev != istr:
+                        ctx.fail("number.history-dependent[attr]: " + desc, "printed %r and %r in two histories" % (prev, istr), {"doc": xml})
+                    if ilist != mlist:
+                        agree = False
+                        bad.append((desc, istr, e[0]))
+                    if ilist != slist:
+                        cmatch = (cnt[1](cur) if cnt else True)
+                        if level == "any" and slist == [0] and ilist == []:
+                            cls = "any,zero-count-prints-nothing"
+                        elif level == "any" and isattr and cmatch and ilist == mlist:
+                            cls = "any,attribute-counted,parent-step-null"
+                        else:
+                            cls = "unclassified"
+                        ctx.fail("number.spec[%s]: %s" % (cls, desc), "xsl:number printed %r; XSLT 1.0 section 7.7 defines %s" % (istr, slist),
+                                 {"doc": xml, "level": level, "count": cnt[0] if cnt else None, "from": frm[0] if frm else None, "node": node})
+    ctx.oblige("correspondence: xsl:number on documents with attribute nodes (attributes as context and counted nodes) = Lean model",
+               "correspondence", agree, str(bad[:3]))
+
+
+def greek_stream(ctx, r, harness, model):
+    """format="&#x3B1;" letter-value="alphabetic" (int2alphaCount over s_elalphaCountTable, radix 25), and the lang attribute
+    (parsed, never consulted): compared with the model; the strings must decode back (bijective base 25 over the table that
+    translate/c17_tables.py read from the source)"""
+    import re
+    gen = open(os.path.join(common.GEN, "C17_NumberTables.lean"), encoding="utf-8").read()
+    m = re.search(r"def elalphaTable : List Nat := \[([^\]]*)\]", gen)
+    table = [int(x) for x in m.group(1).split(",")] if m else []
+    radix = len(table)
+    vals = [1, 2, radix - 1, radix, radix + 1, 2 * radix, radix * radix, radix * radix + radix, radix ** 3, 10 ** 9] + \
+           [r.range(1, 3000) for _ in range(150)] + [r.range(1, 10 ** 12) for _ in range(50)]
+    body = "".join('<xsl:number value="%d" format="&#x3B1;" letter-value="alphabetic" lang="%s"/><xsl:text>&#10;</xsl:text>' % (v, r.choice(["el", "en", "de"]))
+                   for v in vals)
+    body += '<xsl:number value="1999" format="I" lang="de"/><xsl:text>&#10;</xsl:text><xsl:number value="28" format="a" lang="el" letter-value="traditional"/><xsl:text>&#10;</xsl:text>'
+    xsl = ('<xsl:stylesheet version="1.0" xmlns:xsl="http://www.w3.org/1999/XSL/Transform"><xsl:output method="text" encoding="UTF-8"/>'
+           '<xsl:template match="/">%s</xsl:template></xsl:stylesheet>' % body)
+    res = run_impl(harness, [("<r/>", [xsl])], 1)[0][0]
+    lines = ["lv 1"] + ["val 03b1 - - %d" % v for v in vals] + ["lv 0", "val 0049 - - 1999", "val 0061 - - 28"]
+    mout, _, merr = run_model(model, lines, "greek")
+    if res[0] != "out" or len(mout) != len(lines):
+        ctx.oblige("correspondence: Greek alphabetic numbering / lang = Lean model", "correspondence", False, "%r %s" % (res, merr))
+        return
+    got = res[1].split("\n")[:len(vals) + 2]
+    want = [G.from_units(x) for x in mout[1:1 + len(vals)]] + [G.from_units(mout[-2]), G.from_units(mout[-1])]
+    ok = got == want
+    for v, sgot in zip(vals, got):
+        ctx.case(nontrivial_key=("greek", v), cls="format:greek-alphabetic")
+        # decode: bijective base `radix`, table[0] is the digit `radix`
+        n = 0
+        good = bool(sgot)
+        for ch in sgot:
+            if ord(ch) not in table:
+                good = False
+                break
+            i = table.index(ord(ch))
+            n = n * radix + (radix if i == 0 else i)
+        if not good or n != v:
+            ctx.fail("number.format.roundtrip[greek-alphabetic]: value=%d" % v, "printed %r which decodes to %s" % (sgot, n if good else None), {"value": v})
+    ctx.oblige("correspondence: Greek alphabetic numbering (letter-value=alphabetic) and ignored lang attribute = Lean model", "correspondence", ok,
+               str([(v, a, b) for v, a, b in zip(vals + [1999, 28], got, want) if a != b][:3]))
+
+
+VALUE_EDGES = [
+    # (value expression, numerator, denominator | None for a special, format, grouping-separator, grouping-size, string XSLT 1.0 (+E24) defines | None = error)
+    ("2.5", 5, 2, None, None, None, "3"), ("0.5", 1, 2, None, None, None, "1"), ("3.5", 7, 2, None, None, None, "4"),
+    ("1.5", 3, 2, "a", None, None, "b"), ("26.5", 53, 2, "A", None, None, "AA"), ("3998.5", 7997, 2, "I", None, None, "MMMCMXCIX"),
+    ("0.49", 49, 100, None, None, None, "0.49"), ("0.25", 1, 4, "a", None, None, "0.25"), ("-3.7", -37, 10, None, None, None, "-3.7"),
+    ("0", 0, 1, "001", None, None, "0"), ("-25", -25, 1, "i", None, None, "-25"),
+    ("0 div 0", None, "nan", None, None, None, "NaN"), ("1 div 0", None, "inf", "a", None, None, "Infinity"),
+    ("-1 div 0", None, "-inf", None, None, None, "-Infinity"),
+    ("9223372036854775808", 2 ** 63, 1, None, None, None, "9223372036854775808"),
+    ("18446744073709549568", 2 ** 64 - 2048, 1, None, ",", "3", "18,446,744,073,709,549,568"),
+    ("18446744073709551616", 2 ** 64, 1, None, None, None, "18446744073709551616"),
+    ("100000000000000000000", 10 ** 20, 1, None, None, None, "100000000000000000000"),
+    ("1234567", 1234567, 1, None, ",", "0", "1234567"), ("1234567", 1234567, 1, None, ",", None, "1234567"),
+    ("1234567", 1234567, 1, None, None, "3", "1234567"), ("1234567", 1234567, 1, "0001", ".", "2", "1.23.45.67"),
+    ("1234567", 1234567, 1, None, ",,", "3", None), ("5", 5, 1, "a", ",,", "3", "e"), ("12", 12, 1, "1", ",,", None, None),
+]
+
+
+def value_edges(ctx, harness, model):
+    """non-integral, negative, special and very large value= numbers; grouping attribute edge cases"""
+    groups, lines = [], []
+    for expr, num, den, fmt, gs, gz, want in VALUE_EDGES:
+        a = ' value="%s"' % expr
+        if fmt is not None:
+            a += ' format="%s"' % G.xml_attr(fmt)
+        if gs is not None:
+            a += ' grouping-separator="%s"' % G.xml_attr(gs)
+        if gz is not None:
+            a += ' grouping-size="%s"' % gz
+        xsl = ('<xsl:stylesheet version="1.0" xmlns:xsl="http://www.w3.org/1999/XSL/Transform"><xsl:output method="text" encoding="UTF-8"/>'
+               '<xsl:template match="/"><xsl:number%s/></xsl:template></xsl:stylesheet>' % a)
+        groups.append(("<r/>", [xsl]))
+        if num is not None:
+            lines.append("valq %s %s %s %d %d" % (G.units(fmt), G.units(gs) if gs else "-", gz if gz else "-", num, den))
+    impl = run_impl(harness, groups, nproc=4)
+    mout, mrc, merr = run_model(model, lines, "vedge")
+    ok = len(mout) == len(lines)
+    bad = []
+    mi = 0
+    for (expr, num, den, fmt, gs, gz, want), res in zip(VALUE_EDGES, impl):
+        kind, text = res[0]
+        m = None
+        if num is not None:
+            m = mout[mi] if mi < len(mout) else None
+            mi += 1
+        ctx.case(nontrivial_key=("ve", expr, fmt, gs, gz), cls="value-edge")
+        desc = "value=%s format=%r grouping-separator=%r grouping-size=%r" % (expr, fmt, gs, gz)
+        got = text if kind == "out" else None
+        # model
+        if m is not None:
+            if m == "!err":
+                if kind != "err":
+                    ok = False; bad.append((desc, "model: error", res[0]))
+            elif m == "!undefined-cast":
+                pass            # the code performs an undefined conversion: nothing to compare with
+            elif m == "!num2str":
+                pass            # NumberToDOMString(double): property C18; compared with the specified string below
+            elif kind != "out" or G.from_units(m) != text:
+                ok = False; bad.append((desc, "model: %r" % G.from_units(m), res[0]))
+        # specification
+        if want is None:
+            if kind != "err":
+                ctx.fail("number.value[error-expected]: " + desc, "an XSLT error was expected, got %r" % (res[0],), {"value": expr})
+        elif got != want:
+            cls = "beyond-CountType" if m == "!undefined-cast" else "unclassified"
+            ctx.fail("number.value[%s]: %s" % (cls, desc), "printed %r; XSLT 1.0 section 7.7 (value rounded, erratum E24 for NaN/infinite/<0.5) gives %r" % (res[0], want),
+                     {"value": expr, "format": fmt, "grouping-separator": gs, "grouping-size": gz})
+    ctx.oblige("correspondence: value= edge cases (non-integral, negative, special, > 64 bits, grouping attribute edge cases) = Lean model",
+               "correspondence", ok, str(bad[:3]) + merr[-200:])
+
+
 def last_alnum_type(fmt):
     if not fmt:
         return "1"
@@ -662,7 +936,12 @@ def run(ctx):
     ctx.translate("c17_tables")
     ctx.translate("c17_navshape")
     ctx.lean("XalanModel.Props.C17", THEOREMS, extra_targets=["xm_c17"])
-    model = ctx.exe("xm_c17")
+    # the driver is built on its own (it depends on the model and the generated tables only, not on the proofs): a proof
+    # that no longer builds must not leave a stale xm_c17 in use, and a driver that does not build is an obligation
+    # that failed, not a reason to fall back to an old binary
+    drc, dout = common.lake_build(["xm_c17"])
+    ctx.oblige("lake build xm_c17 (model driver is current)", "build", drc == 0, dout[-1500:] if drc else "")
+    model = ctx.exe("xm_c17") if drc == 0 else None
     harness = common.build_harness("c17_number", ["c17_number.cpp"], flavor="hooks")
     os.makedirs(WORK, exist_ok=True)
     if model is None:
@@ -707,7 +986,39 @@ def run(ctx):
     else:
         ctx.fail("number.attribute[unexplained]: %r" % (res,), "expected 1;1; from <xsl:number/> on the two k attributes", {"stylesheet": attr_xsl})
 
-    # 5. formatting
+    # 4a. namespace nodes as current node (outside the navigation model): explicit count walks to the element;
+    # the default count pattern cannot be written as a pattern at all
+    # (the namespace nodes are taken from the element that declares them: this processor shares the declaring element's
+    # namespace nodes with its descendants and has one `xml` namespace node, so elsewhere their parent is not the element
+    # they were selected from)
+    ns_doc = '<r><x/><x><p:y xmlns:p="urn:p"/></x></r>'
+    ns_xsl = ('<xsl:stylesheet version="1.0" xmlns:xsl="http://www.w3.org/1999/XSL/Transform" xmlns:p="urn:p"><xsl:output method="text"/>'
+              '<xsl:template match="/"><xsl:for-each select="/r/x[2]/p:y/namespace::p">[<xsl:number count="*" level="multiple"/>]</xsl:for-each>'
+              '</xsl:template></xsl:stylesheet>')
+    res = run_impl(harness, [(ns_doc, [ns_xsl]), (ns_doc, [ns_xsl.replace(' count="*" level="multiple"', "")])], 1)
+    ctx.case(cls="namespace-node")
+    ctx.case(cls="namespace-node,default-count")
+    if res[0][0] != ("out", "[1.2.1]"):
+        ctx.fail("number.namespace-node[explicit-count]: %r" % (res[0][0],), "expected [1.2.1] (the namespace node p of p:y: ancestors r, x[2], p:y)",
+                 {"doc": ns_doc, "stylesheet": ns_xsl})
+    if res[1][0] != ("out", "[1]"):
+        k = res[1][0]
+        if k[0] == "err" and "xmlns" in k[1]:
+            ctx.fail("number.error[default-count,namespace-node]: <xsl:number/> at /r/x[2]/p:y/namespace::p of " + ns_doc,
+                     "xsl:number without count on a namespace node raises: " + k[1][:160], {"doc": ns_doc})
+        else:
+            ctx.fail("number.namespace-node[default-count,unexplained]: %r" % (k,), "expected [1]", {"doc": ns_doc})
+
+    # 4b. attribute nodes in the navigation model
+    attr_stream(ctx, r, harness, model, 60 if not ctx.thorough else 600)
+
+    # 4c. Greek alphabetic numbering, lang
+    greek_stream(ctx, r, harness, model)
+
+    # 5. value= edge cases
+    value_edges(ctx, harness, model)
+
+    # 6. formatting
     format_stream(ctx, r, harness, model, 30000 if not ctx.thorough else 200000)
     ctx.exhaustive = False
 
